@@ -21,7 +21,7 @@ ASSUMPTIONS = [
     "skipped empty labels, high*65536+low, sum with None counted 0, round(v*i), documented thresholds of grid_in_out) are the oracle's",
     "a rounding tie within 1e-6 accepts either neighbour",
 ]
-MUST = ["earlier_object_polled_again", "end_to_end_results", "end_to_end_with_mppt_block", "end_to_end_labels", "bitmap4_whole_table_checked", "label_pairs_checked", "bitmap4_checked", "bitmap22_checked", "nonempty_bitmap_labels", "sum_checked", "product_checked",
+MUST = ["small_codes_in_code_sensors", "earlier_object_polled_again", "end_to_end_results", "end_to_end_with_mppt_block", "end_to_end_labels", "bitmap4_whole_table_checked", "label_pairs_checked", "bitmap4_checked", "bitmap22_checked", "nonempty_bitmap_labels", "sum_checked", "product_checked",
         "grid_in_out_checked", "house_consumption_checked", "es_signed_powers_checked"]
 EXHAUSTIVE = {"quick": False, "thorough": True}
 
@@ -161,6 +161,15 @@ def check_formulas(spec, part):
                 if fam == "ET" and rnd.random() < 0.5:
                     p = blocks.pos_of(block, 35140)
                     pl[p:p + 2] = rnd.choice((-92, -91, -90, -89, 0, 89, 90, 91, 32767, -32768)).to_bytes(2, "big", signed=True)
+                if rnd.random() < 0.6:
+                    # the code sensors (those with a '<id>_label' companion) hold small codes - the values the formulas branch on -
+                    # instead of random bytes: every combination of e.g. battery_mode x grid_in_out comes up
+                    ids_ = {sn.id_ for sn in block["sensors"]}
+                    for sn in block["sensors"]:
+                        if sn.id_ + "_label" in ids_ and getattr(sn, "size_", 0) in (1, 2) and type(sn).__name__ not in ("EnumBitmap4", "EnumBitmap22"):
+                            pc = blocks.pos_of(block, sn)
+                            pl[pc:pc + sn.size_] = rnd.choice((0, 1, 2, 3, 4, 5, 2, 3)).to_bytes(sn.size_, "big")
+                    part.count("small_codes_in_code_sensors")
                 bm = [sn for sn in block["sensors"] if type(sn).__name__ == "EnumBitmap4"]
                 if bm and rnd.random() < 0.5:
                     word = rnd.choice((1, 2, 0x2001, 0x80000000, rnd.randrange(1, 2 ** 32), 1 << rnd.randrange(32))).to_bytes(4, "big")
